@@ -327,14 +327,14 @@ func (p *Peer) SendSubscribe(client *PFeat, server *model.FeatureAddressType, ft
 	}
 	cmd := model.CmdType{NodeManagementSubscriptionRequestCall: &model.NodeManagementSubscriptionRequestCallType{
 		SubscriptionRequest: &model.SubscriptionManagementRequestCallType{ClientAddress: ca, ServerAddress: server, ServerFeatureType: &ft}}}
-	return p.SendCmd(p.NM().Address(), p.LocalNM(), model.CmdClassifierTypeCall, util.Ptr(true), cmd, tag)
+	return p.SendCmd(p.NM().Address(), p.LocalNM(), model.CmdClassifierTypeCall, util.Ptr(true), cmd, tag+"("+AddrStr(ca)+"=>"+AddrStr(server)+")")
 }
 
 //go:norace
 func (p *Peer) SendUnsubscribe(client *model.FeatureAddressType, server *model.FeatureAddressType, tag string) uint64 {
 	cmd := model.CmdType{NodeManagementSubscriptionDeleteCall: &model.NodeManagementSubscriptionDeleteCallType{
 		SubscriptionDelete: &model.SubscriptionManagementDeleteCallType{ClientAddress: client, ServerAddress: server}}}
-	return p.SendCmd(p.NM().Address(), p.LocalNM(), model.CmdClassifierTypeCall, util.Ptr(true), cmd, tag)
+	return p.SendCmd(p.NM().Address(), p.LocalNM(), model.CmdClassifierTypeCall, util.Ptr(true), cmd, tag+"("+AddrStr(client)+"=>"+AddrStr(server)+")")
 }
 
 //go:norace
@@ -345,14 +345,14 @@ func (p *Peer) SendBind(client *PFeat, server *model.FeatureAddressType, ft mode
 	}
 	cmd := model.CmdType{NodeManagementBindingRequestCall: &model.NodeManagementBindingRequestCallType{
 		BindingRequest: &model.BindingManagementRequestCallType{ClientAddress: ca, ServerAddress: server, ServerFeatureType: &ft}}}
-	return p.SendCmd(p.NM().Address(), p.LocalNM(), model.CmdClassifierTypeCall, util.Ptr(true), cmd, tag)
+	return p.SendCmd(p.NM().Address(), p.LocalNM(), model.CmdClassifierTypeCall, util.Ptr(true), cmd, tag+"("+AddrStr(ca)+"=>"+AddrStr(server)+")")
 }
 
 //go:norace
 func (p *Peer) SendUnbind(client *model.FeatureAddressType, server *model.FeatureAddressType, tag string) uint64 {
 	cmd := model.CmdType{NodeManagementBindingDeleteCall: &model.NodeManagementBindingDeleteCallType{
 		BindingDelete: &model.BindingManagementDeleteCallType{ClientAddress: client, ServerAddress: server}}}
-	return p.SendCmd(p.NM().Address(), p.LocalNM(), model.CmdClassifierTypeCall, util.Ptr(true), cmd, tag)
+	return p.SendCmd(p.NM().Address(), p.LocalNM(), model.CmdClassifierTypeCall, util.Ptr(true), cmd, tag+"("+AddrStr(client)+"=>"+AddrStr(server)+")")
 }
 
 // Responses returns the datagrams the node wrote to this peer that reference ctr.
